@@ -86,6 +86,11 @@ CHECKS = {
             "Every float spelling and timestamp 0..2^32-1 must decode in CPython to the same name bytes, int timestamp and float64 bit pattern; unrepresentable lines must emit nothing and be counted bad_pickle. For generated rule lists (anchored, $-anchored, unanchored, tag patterns, priorities, old/new retention syntax) Name, sorted Tags, Value, Time, OrgId and Interval must match the rule model on parseMetric output, on the msgp bytes handed to sarama, and in real grafanaNet POST bodies.",
             "Kafka is decided at the parseMetric + MarshalMsg boundary only (no broker here); rule matching in the harness uses Go regexp on patterns it generated itself.",
             "DESIGN.md §4 C16"),
+    "C17": ("exploration",
+            "runtime monitoring: scripted-fault HTTP endpoint + decoded-delivery log + stall detector with goroutine samples, under -race",
+            "Real GrafanaNet routes (concurrency 1-8, blocking on/off, small/large buffers, flushMaxNum 1-100, flushMaxWait 5-100 ms, timeout 100-300 ms) are driven with uniquely tagged points against a loopback gateway that decodes every POST (snappy, msg header, msgp) and answers from a generated per-request script (2xx in five body shapes, 4xx, 5xx, hang past the client timeout, reset before/after reading). Per case: every accepted metric is in a 2xx-answered POST after the faults stop; per series the first-acknowledgement order equals dispatch order; no failed batch is overtaken; non-blocking Dispatch never parks and every unacknowledged metric is counted queue_full; blocking mode drops nothing; Shutdown() returns once the endpoint is idle and only after everything accepted was acknowledged.",
+            "Retry-until-acknowledged is judged as bounded progress after the scripted faults stop (<= 6 decoded failures per batch, then a healthy endpoint); stalls only on two identical parked stack samples; any 2xx counts as an acknowledgement.",
+            "DESIGN.md §4 C17"),
     "C18": ("exploration",
             "runtime monitoring: snapshot-immutability invariant at white-box accessor, forced interleavings via tag-guarded after-load hooks with exact delivery counts, free-running dispatch x admin ops under the race detector (reports scoped to mutator-vs-dispatch), sequential model of the table view",
             "A: slices loaded from the table/route snapshot are compared element-wise after every delete (all list lengths 1..6 x indexes, five list kinds, add/delete histories). B: a dispatcher is held right after loading the snapshot while the delete happens, then released: every entry that exists before and after must see the line exactly once (capture routes, non-idempotent rewriters, counting aggregators, real destinations, real route deleted); a dispatcher that never returns is confirmed with two stack samples. C: 8 dispatchers x random admin operations: stable routes/destinations must get every line exactly once; race reports with one side in a mutator and the other in a dispatch path count. E: Table.Snapshot() vs model after each operation of random histories (index >= len rejected, unknown route no-op).",
